@@ -85,13 +85,13 @@ package jpeg
 //@   requires [C10 C06 C07] sigLEat(r, pos(r)) ==> h.ByteOrder == utils.LittleEndian && h.FirstIfdOffset == le32At(r, pos(r) + 4)
 //@   requires [C10 C06 C07] sigBEat(r, pos(r)) ==> h.ByteOrder == utils.BigEndian && h.FirstIfdOffset == be32At(r, pos(r) + 4)
 //@   requires [C10] !isSigAt(r, pos(r)) ==> h.ByteOrder == utils.UnknownEndian
-//@   modifies stream(r)
+//@   modifies stream(r), foreign(jpeg)
 //@   ensures pos(r) >= old(pos(r))
 
 //@ func (*jpegReader).readExif
 //@   props C02 C10 C06
 //@   requires atMarker(jr) && exifPrefixAt(jr.br, pos(jr.br) + 4)
-//@   modifies jr.discarded, stream(jr.br)
+//@   modifies jr.discarded, stream(jr.br), foreign
 //@   ghost hOff uint32 = exifHeader.TiffHeaderOffset
 //@   ghost hLen uint32 = exifHeader.ExifLength
 //@   ensures [C02] err == nil ==> pos(jr.br) >= old(pos(jr.br)) + 10
@@ -106,21 +106,22 @@ package jpeg
 // position is old position + 4 + 29 + N, this postcondition also pins the packet start and the limit N = length - 31.
 //@ dep callback jpeg.jpegReader.XMPReader
 //@   names r -> err
-//@   modifies as(r, "*io.LimitedReader").N, stream(as(r, "*io.LimitedReader").R)
+//@   modifies as(r, "*io.LimitedReader").N, stream(as(r, "*io.LimitedReader").R), foreign(jpeg)
+//@   ensures as(r, "*io.LimitedReader").R == old(as(r, "*io.LimitedReader").R)
 //@   ensures old(as(r, "*io.LimitedReader").N) >= 0 ==> 0 <= as(r, "*io.LimitedReader").N && as(r, "*io.LimitedReader").N <= old(as(r, "*io.LimitedReader").N) && pos(as(r, "*io.LimitedReader").R) == old(pos(as(r, "*io.LimitedReader").R)) + int(old(as(r, "*io.LimitedReader").N) - as(r, "*io.LimitedReader").N)
 //@   ensures old(as(r, "*io.LimitedReader").N) < 0 ==> as(r, "*io.LimitedReader").N == old(as(r, "*io.LimitedReader").N) && pos(as(r, "*io.LimitedReader").R) == old(pos(as(r, "*io.LimitedReader").R))
 
 //@ func (*jpegReader).readXMP
 //@   props C02 C10
 //@   requires atMarker(jr)
-//@   modifies jr.discarded, stream(jr.br), io.LimitedReader.N
+//@   modifies jr.discarded, stream(jr.br), io.LimitedReader.N, foreign
 //@   ensures [C10] pos(jr.br) >= old(pos(jr.br))
 //@   ensures [C10] err == nil ==> pos(jr.br) == old(pos(jr.br)) + 2 + int(jr.size)
 
 //@ func (*jpegReader).readAPP1
 //@   props C02 C10
 //@   requires atMarker(jr)
-//@   modifies jr.err, jr.discarded, stream(jr.br), io.LimitedReader.N
+//@   modifies jr.err, jr.discarded, stream(jr.br), io.LimitedReader.N, foreign
 //@   ensures [C10] pos(jr.br) >= old(pos(jr.br))
 //@   ensures [C02] jr.err == nil ==> pos(jr.br) > old(pos(jr.br))
 //@   ensures [C10] jr.err == nil && jr.ExifReader == nil ==> pos(jr.br) == old(pos(jr.br)) + 2 + int(jr.size)
@@ -128,7 +129,7 @@ package jpeg
 //@ func (*jpegReader).readAPPMarker
 //@   props C02 C10
 //@   requires atMarker(jr)
-//@   modifies jr.err, jr.discarded, stream(jr.br), io.LimitedReader.N
+//@   modifies jr.err, jr.discarded, stream(jr.br), io.LimitedReader.N, foreign
 //@   ensures [C10] pos(jr.br) >= old(pos(jr.br))
 //@   ensures [C02] jr.err == nil ==> pos(jr.br) > old(pos(jr.br))
 //@   ensures [C10] jr.err == nil && jr.ExifReader == nil ==> pos(jr.br) == old(pos(jr.br)) + 2 + int(jr.size)
